@@ -465,6 +465,30 @@ pub open spec fn pick_ok(t: Tree, ls: Tree, r: Tree) -> bool decreases t {
         },
     }
 }
+/// `r` follows the caller's choice oracle `o` wherever the value is not forced (both children satisfiable)
+pub open spec fn pick_follows(t: Tree, o: spec_fn(Tree, u32) -> bool, r: Tree) -> bool decreases t {
+    match t {
+        Tree::Leaf(_) => true,
+        Tree::Inner(l, a, b) => match r {
+            Tree::Leaf(_) => false,
+            Tree::Inner(rl, ra, rb) => {
+                let free = *a != ff() && *b != ff();
+                ||| (*rb == ff() && (free ==> o(t, l)) && pick_follows(*a, o, *ra))
+                ||| (*ra == ff() && (free ==> !o(t, l)) && pick_follows(*b, o, *rb))
+            },
+        },
+    }
+}
+pub broadcast proof fn lemma_pick_follows_mk(l: u32, a: Tree, b: Tree, o: spec_fn(Tree, u32) -> bool, rl: u32, ra: Tree, rb: Tree)
+    ensures #[trigger] pick_follows(mk(l, a, b), o, mk(rl, ra, rb)) == ({
+        let free = a != ff() && b != ff();
+        ||| (rb == ff() && (free ==> o(mk(l, a, b), l)) && pick_follows(a, o, ra))
+        ||| (ra == ff() && (free ==> !o(mk(l, a, b), l)) && pick_follows(b, o, rb))
+    }),
+{}
+pub broadcast proof fn lemma_pick_follows_leaf(c: bool, o: spec_fn(Tree, u32) -> bool, r: Tree)
+    ensures #[trigger] pick_follows(Tree::Leaf(c), o, r),
+{}
 pub open spec fn is_cube(r: Tree) -> bool decreases r {
     match r {
         Tree::Leaf(b) => b,
@@ -622,7 +646,7 @@ pub broadcast proof fn lemma_lpopped_id(ls: Tree, until: int)
     requires top(ls) >= until,
     ensures #[trigger] lpopped(ls, until) == ls,
 {}
-pub broadcast group pick_lemmas { lemma_pick_ok_top, lemma_pick_ok_mk, lemma_pick_ok_leaf, lemma_pick_ok_ok, lemma_lit_pol_mk, lemma_lit_pol_leaf, lemma_pick_ok_lpopped, lemma_pick_ok_step, lemma_lit_pol_lpopped_b, lemma_lpopped_mk, lemma_lpopped_id, lemma_lpopped_ok }
+pub broadcast group pick_lemmas { lemma_pick_follows_mk, lemma_pick_follows_leaf, lemma_pick_ok_top, lemma_pick_ok_mk, lemma_pick_ok_leaf, lemma_pick_ok_ok, lemma_lit_pol_mk, lemma_lit_pol_leaf, lemma_pick_ok_lpopped, lemma_pick_ok_step, lemma_lit_pol_lpopped_b, lemma_lpopped_mk, lemma_lpopped_id, lemma_lpopped_ok }
 // ---------- structural view: complement-edge terms ----------
 /// a NODE: the single terminal ⊤ or an inner node with its two stored child EDGES
 pub enum CN { One, Inner(u32, Box<CE>, Box<CE>) }
@@ -1321,7 +1345,28 @@ pub broadcast proof fn lemma_cube_rel_mk<M: Manager>(m: &M, l: u32, a: Tree, b: 
 pub broadcast proof fn lemma_cube_rel_leaf<M: Manager>(m: &M, c: bool, old: Seq<OptBool>, new: Seq<OptBool>)
     ensures #[trigger] cube_rel(m, Tree::Leaf(c), old, new) == (new == old),
 {}
-pub broadcast group cube_lemmas { lemma_cube_rel_mk, lemma_cube_rel_leaf }
+/// ... and, wherever the value is not forced (both children satisfiable), the branch is the one given by the oracle `o`
+pub open spec fn cube_follows<M: Manager>(m: &M, t: Tree, o: spec_fn(Tree, u32) -> bool, old: Seq<OptBool>, new: Seq<OptBool>) -> bool decreases t {
+    match t {
+        Tree::Leaf(_) => new == old,
+        Tree::Inner(l, a, b) => {
+            let free = *a != ff() && *b != ff();
+            ||| (*a != ff() && (free ==> o(t, l)) && cube_follows(m, *a, o, old.update(m.level_to_var_spec(l as int), OptBool::True), new))
+            ||| (*b != ff() && (free ==> !o(t, l)) && cube_follows(m, *b, o, old.update(m.level_to_var_spec(l as int), OptBool::False), new))
+        },
+    }
+}
+pub broadcast proof fn lemma_cube_follows_mk<M: Manager>(m: &M, l: u32, a: Tree, b: Tree, o: spec_fn(Tree, u32) -> bool, old: Seq<OptBool>, new: Seq<OptBool>)
+    ensures #[trigger] cube_follows(m, mk(l, a, b), o, old, new) == ({
+        let free = a != ff() && b != ff();
+        ||| (a != ff() && (free ==> o(mk(l, a, b), l)) && cube_follows(m, a, o, old.update(m.level_to_var_spec(l as int), OptBool::True), new))
+        ||| (b != ff() && (free ==> !o(mk(l, a, b), l)) && cube_follows(m, b, o, old.update(m.level_to_var_spec(l as int), OptBool::False), new))
+    }),
+{}
+pub broadcast proof fn lemma_cube_follows_leaf<M: Manager>(m: &M, c: bool, o: spec_fn(Tree, u32) -> bool, old: Seq<OptBool>, new: Seq<OptBool>)
+    ensures #[trigger] cube_follows(m, Tree::Leaf(c), o, old, new) == (new == old),
+{}
+pub broadcast group cube_lemmas { lemma_cube_rel_mk, lemma_cube_rel_leaf, lemma_cube_follows_mk, lemma_cube_follows_leaf }
 // ---------- units: crates/oxidd-rules-bdd/src/lib.rs ----------
 /// variables above level `until` removed from the set: follows the STORED then-edges of the nodes (tags ignored)
 pub open spec fn cpopped(c: CE, until: int) -> CE decreases c {
@@ -1725,10 +1770,13 @@ use super::apply_rec::*;
 broadcast use {ce_core, ce_tree, restrict_lemmas, subst_lemmas};
 //@item file=crates/oxidd-rules-bdd/src/complement_edge/apply_rec.rs path=fn:restrict/enum:InnerResult rename=restrict__InnerResult
 //@end
-// NOT UNDER PROOF (extractor limitation: the body uses a labelled block `'ret_f: { .. break 'ret_f v; .. }`, which the
-// installed Verus rejects and no rewrite rule covers): the contract below is ASSUMED for `restrict`.
+// The body of `restrict::inner` uses a labelled block (`let (f, complement) = 'ret_f: { .. break 'ret_f (f, f_neg); .. (f, f_neg) };
+// InnerResult::Done(<tail using f, complement>)`), which the installed Verus rejects and no extractor rule covers.  It is desugared
+// here with the textual-replacement directives: the label is dropped and each of the three (textually identical) `break 'ret_f (f, f_neg);`
+// becomes an early `return` of the tail expression with `complement := f_neg`.  `expect=R10:5` pins 1 label + 3 breaks + 1 occurrence
+// of the first line of the tail expression (identity replacement), so a change of either makes the unit UNDECIDED (anchor lost).
 // `f_neg` / `vars_neg` are the effective tags: the function restricted is `cwith(f, f_neg)`, the cube `cwith(vars, vars_neg)`.
-//@fn file=crates/oxidd-rules-bdd/src/complement_edge/apply_rec.rs path=fn:restrict/fn:inner rename=restrict__inner subst=InnerResult>restrict__InnerResult mode=stub props=C04
+//@fn file=crates/oxidd-rules-bdd/src/complement_edge/apply_rec.rs path=fn:restrict/fn:inner rename=restrict__inner subst=InnerResult>restrict__InnerResult "selfcall='ret_f: {>{,InnerResult::Done(manager.clone_edge(&f).with_tag_owned(if complement {>InnerResult::Done(manager.clone_edge(&f).with_tag_owned(if complement {" "subst_text=break 'ret_f (f, f_neg);::=return restrict__InnerResult::Done(manager.clone_edge(&f).with_tag_owned(if f_neg { EdgeTag::Complemented } else { EdgeTag::None }));" expect=R10:5 props=C04
 //@spec
     requires edge_ok::<M::Edge>(), okc(f.cv(), manager.num_levels_spec()), okc(vars.cv(), manager.num_levels_spec()),
         f.cv() == cmk(f.cv().neg, fnode.level_spec(), fnode.then_c(), fnode.else_c()), flevel == fnode.level_spec(),
@@ -1742,6 +1790,7 @@ broadcast use {ce_core, ce_tree, restrict_lemmas, subst_lemmas};
             && v2.cv().node is Inner && ctop(v2.cv()) > ctop(f2.cv()) && ctop(f2.cv()) >= ctop(f.cv())
             && forall|env: Env| csem(cwith(f2.cv(), fn2), cenv(tv(v2.cv()), env)) == #[trigger] csem(cwith(f.cv(), f_neg), cenv(tv(cwith(vars.cv(), vars_neg)), env)),
     },
+    decreases u32::MAX as int - ctop(f.cv()), u32::MAX as int - ctop(vars.cv()),
 //@end
 //@fn file=crates/oxidd-rules-bdd/src/complement_edge/apply_rec.rs path=fn:restrict hoist=inner>restrict__inner,InnerResult>restrict__InnerResult nodecr expect=R5:1 props=C04,C06 vis=pub
 //@spec
@@ -1773,6 +1822,9 @@ broadcast use {ce_core, ce_tree, ce_leaf, cpop_lemmas, pick_lemmas, cube_lemmas}
         // the choice function may be consulted only with a node whose two cofactors are both satisfiable, and with that node's level
         forall|mm: &M, ee: &M::Edge, l: LevelNo| (tv(ee.cv()) matches Tree::Inner(k, a, b) && k == l && *a != ff() && *b != ff()) ==> #[trigger] choice.requires((mm, ee, l)),
     ensures res is Ok ==> pick_ok(tv(edge.cv()), Tree::Leaf(true), tv(res->Ok_0.cv())) && okc(res->Ok_0.cv(), manager.num_levels_spec()),
+        // wherever the value is not forced it is the value returned by the caller's choice function
+        res is Ok ==> forall|o: spec_fn(Tree, u32) -> bool| (forall|mm: &M, ee: &M::Edge, l: LevelNo, r: bool| #[trigger] choice.ensures((mm, ee, l), r) ==> r == o(tv(ee.cv()), l))
+            ==> #[trigger] pick_follows(tv(edge.cv()), o, tv(res->Ok_0.cv())),
     decreases u32::MAX as int - ctop(edge.cv()),
 //@end
 //@fn file=crates/oxidd-rules-bdd/src/complement_edge/apply_rec.rs path=impl:BooleanFunction~for~BCDDFunction<F>/fn:pick_cube_dd_set_edge/fn:inner rename=pick_cube_dd_set_edge__inner props=C13
@@ -1787,6 +1839,8 @@ broadcast use {ce_core, ce_tree, ce_leaf, cpop_lemmas, pick_lemmas, cube_lemmas}
         forall|l: int| 0 <= l < manager.num_levels_spec() ==> 0 <= #[trigger] manager.level_to_var_spec(l) < manager.num_levels_spec(),
         forall|mm: &M, ee: &M::Edge, l: LevelNo| (tv(ee.cv()) matches Tree::Inner(k, a, b) && k == l && *a != ff() && *b != ff()) ==> #[trigger] choice.requires((mm, ee, l)),
     ensures final(cube)@.len() == old(cube)@.len(), cube_rel(manager, tv(edge.cv()), old(cube)@, final(cube)@),
+        forall|o: spec_fn(Tree, u32) -> bool| (forall|mm: &M, ee: &M::Edge, l: LevelNo, r: bool| #[trigger] choice.ensures((mm, ee, l), r) ==> r == o(tv(ee.cv()), l))
+            ==> #[trigger] cube_follows(manager, tv(edge.cv()), o, old(cube)@, final(cube)@),
     decreases u32::MAX as int - ctop(edge.cv()),
 //@end
 //@fn file=crates/oxidd-rules-bdd/src/complement_edge/apply_rec.rs path=impl:BooleanFunction~for~BCDDFunction<F>/fn:pick_cube_dd_edge hoist=inner>pick_cube_dd_edge__inner props=C13
@@ -1797,6 +1851,9 @@ where M: Manager<EdgeTag = EdgeTag, Terminal = BCDDTerminal> + HasApplyCache<M, 
     requires edge_ok::<M::Edge>(), okc(edge.cv(), manager.num_levels_spec()),
         forall|mm: &M, ee: &M::Edge, l: LevelNo| (tv(ee.cv()) matches Tree::Inner(k, a, b) && k == l && *a != ff() && *b != ff()) ==> #[trigger] choice.requires((mm, ee, l)),
     ensures res is Ok ==> pick_ok(tv(edge.cv()), Tree::Leaf(true), tv(res->Ok_0.cv())) && okc(res->Ok_0.cv(), manager.num_levels_spec()),
+        // wherever the value is not forced it is the value returned by the caller's choice function
+        res is Ok ==> forall|o: spec_fn(Tree, u32) -> bool| (forall|mm: &M, ee: &M::Edge, l: LevelNo, r: bool| #[trigger] choice.ensures((mm, ee, l), r) ==> r == o(tv(ee.cv()), l))
+            ==> #[trigger] pick_follows(tv(edge.cv()), o, tv(res->Ok_0.cv())),
 //@end
 //@fn file=crates/oxidd-rules-bdd/src/complement_edge/apply_rec.rs path=impl:BooleanFunction~for~BCDDFunction<F>/fn:pick_cube_dd_set_edge hoist=inner>pick_cube_dd_set_edge__inner props=C13
 //@header
